@@ -40,6 +40,36 @@ pub fn corpus() -> Vec<String> {
     out
 }
 
+/// Every `YYYY-MM-DD` written in the repository's test sources (the days its own assertions are about), as day numbers.
+pub fn test_dates() -> Vec<i64> {
+    let mut out: Vec<i64> = Vec::new();
+
+    for dir in TEST_DIRS {
+        let Ok(rd) = std::fs::read_dir(dir) else { continue };
+        for path in rd.filter_map(|e| e.ok()).map(|e| e.path()) {
+            if path.extension().map(|e| e != "rs").unwrap_or(true) {
+                continue;
+            }
+            let Ok(src) = std::fs::read_to_string(&path) else { continue };
+            let b = src.as_bytes();
+            for i in 0..b.len().saturating_sub(9) {
+                let w = &b[i..i + 10];
+                let digits = |r: std::ops::Range<usize>| w[r].iter().all(u8::is_ascii_digit);
+                if digits(0..4) && w[4] == b'-' && digits(5..7) && w[7] == b'-' && digits(8..10) && (i == 0 || !b[i - 1].is_ascii_digit()) {
+                    let t = std::str::from_utf8(w).unwrap();
+                    if let Ok(d) = chrono::NaiveDate::parse_from_str(t, "%Y-%m-%d") {
+                        out.push(crate::astjson::daynum(d));
+                    }
+                }
+            }
+        }
+    }
+
+    out.sort();
+    out.dedup();
+    out
+}
+
 /// Plain and raw string literals of a Rust source (good enough for the test files).
 fn string_literals(src: &str) -> Vec<String> {
     let b: Vec<char> = src.chars().collect();
